@@ -99,7 +99,7 @@ func TestC15Binary(t *testing.T) {
 		nontrivial := false
 		n := rapid.IntRange(1, 6).Draw(rt, "frames")
 		for i := 0; i < n; i++ {
-			kind := rapid.SampledFrom([]string{"request", "request", "request", "raw", "burst", "big", "http", "httpdoc"}).Draw(rt, "kind")
+			kind := rapid.SampledFrom([]string{"request", "request", "request", "raw", "burst", "big", "http", "httpdoc", "badframe"}).Draw(rt, "kind")
 			kinds = append(kinds, kind)
 			if conn == nil || !healthy {
 				dial()
@@ -149,6 +149,22 @@ func TestC15Binary(t *testing.T) {
 				hist = append(hist, fmt.Sprintf("big frame of %d bytes", len(b)))
 				conn.WriteMessage(websocket.TextMessage, b)
 				healthy = false
+			case "badframe":
+				// bytes that break the WebSocket framing rules themselves (reserved bits, unknown opcode, an unmasked
+				// client frame, an oversized control frame, a continuation of nothing, a close frame with a reserved
+				// code), written straight onto the TCP connection: this connection is lost, the process is not
+				frame := rapid.SampledFrom([][]byte{
+					{0xF1, 0x80, 1, 2, 3, 4},
+					{0x83, 0x80, 1, 2, 3, 4},
+					{0x81, 0x01, 'x'},
+					append([]byte{0x89, 0xFE, 0x00, 0x7E, 1, 2, 3, 4}, make([]byte, 126)...),
+					{0x80, 0x80, 1, 2, 3, 4},
+					{0x88, 0x82, 0, 0, 0, 0, 0x03, 0xED},
+				}).Draw(rt, "badFrame")
+				hist = append(hist, fmt.Sprintf("bytes that violate the WebSocket framing: % x", frame[:min(len(frame), 12)]))
+				conn.UnderlyingConn().Write(frame)
+				healthy = false
+				time.Sleep(150 * time.Millisecond) // let the pool deal with it before the log is looked at
 			case "httpdoc":
 				// a valid JSON document that is not a request (a stray reply, an empty object, a bare value, a batch):
 				// over HTTP it gets some answer or none, but it does not make the handler panic
